@@ -2,3 +2,5 @@ pub mod ast;
 pub mod free;
 pub mod print;
 pub mod value;
+pub mod ctx;
+pub mod tame;
